@@ -47,7 +47,9 @@ KINDS = ["int", "float", "text", "mix"]
 
 INTS = [0, 1, -3, 16777217, 2 ** 53 + 1, 12, -2147483649, 999999, 7, 10 ** 15, -1]
 FLOATS = [0.1234567891, -2.5, 1e-7, 1e16, 1.0 / 3.0, 123456.789012345, -0.00000149, 3.0e38, 2.0000001, -7.0, 0.5e-6,
-          1e-40, 12345678.9999996, -0.0, 0.30000000000000004]
+          1e-40, 12345678.9999996, -0.0, 0.30000000000000004,
+          # exponent notation whose mantissa or exponent ends in '0' (any trailing-zero "compaction" of str(float) breaks these)
+          7e40, 1e20, -3e30, 1.5e100]
 NONNUM = ["A", "TS_01/3.mrc", "1a", "x-1.5e3", "00012_4.2A", "B", "tomo_12.rec", "1e", "--1", "1.2.3", "opticsGroup1", "e5"]
 NUMLIKE = ["12", "-3.5", "1e3", "007", "4.50", "+2"]
 LABELS = ["rlnCoordinateX", "rlnMicrographName", "score", "x_shift", "halfset", "rlnOpticsGroup", "A", "col.2",
